@@ -54,7 +54,7 @@ cSibs == [names |-> {N(<<"a", "-", "b">>), N(<<"a", "_", "b">>), N(<<"A", "-", "
 \* family: attributes (ordered choices, folding collisions, xmlns declarations, values to cast / escape / trim)
 cAttrs == [names |-> {N(<<"a">>)}, anames |-> {N(<<"x">>), N(<<"X">>), N(<<"x", "-", "y">>), NM("xmlns", <<"n">>)},
            avals |-> {<<"7">>, <<" ", "&">>}, texts |-> {<<"v">>}, maxattrs |-> 2, comments |-> FALSE]
-cAttrs1 == [cAttrs EXCEPT !.maxattrs = 1, !.avals = @ \cup {<<"'", "\"">>, LongNum}, !.texts = @ \cup {LongNum}]
+cAttrs1 == [cAttrs EXCEPT !.maxattrs = 1, !.avals = @ \cup {<<"'", "\"">>, LongNum}, !.texts = @ \cup {LongNum, <<"&", "l", "t", ";", "b">>}]      \* (character data that SPELLS a reference: under decoder-side escaping its & is escaped like any other)
 \* family: text placement (before / between / after children, blank runs, trimming, cast and escape look-alikes, comments)
 cTexts == [names |-> {N(<<"a">>), N(<<"b">>)}, anames |-> {N(<<"x">>)}, avals |-> {<<"1">>},
            texts |-> {<<" ", "v", " ">>, <<"7">>, <<"\n">>, <<" ">>, <<"<", "&">>}, maxattrs |-> 1, comments |-> TRUE]
